@@ -150,8 +150,8 @@ static int mem_index(const void *m)
 /* ---- C20: library entry points applied to a stray bit-copy ---- */
 static const char *FN[] = { "?", "gget", "gcopy", "gswap", "ginit", "gset", "uget", "ualloc", "urelease", "uswap", "ureset", "uinit",
                             "sget", "sunique", "salloc", "share", "sswap", "sreset", "sinit", "wfrom", "wlock", "wswap", "wreset", "winit",
-                            "ualloc0", "salloc0", "gcopyself" };
-#define NFN 26
+                            "ualloc0", "salloc0", "gcopyself", "uallocbig", "sallocbig" };
+#define NFN 28
 static int fn_nargs(int f) { return (f == 2 || f == 3 || f == 9 || f == 15 || f == 16 || f == 19 || f == 20 || f == 21) ? 2 : 1; }
 /* kind of object in each position: 'g','u','s','w' */
 static char fn_kind(int f, int pos)
@@ -164,6 +164,8 @@ static char fn_kind(int f, int pos)
     if (f == 24) return 'u';
     if (f == 25) return 's';
     if (f == 26) return 'g';
+    if (f == 27) return 'u';
+    if (f == 28) return 's';
     return 'w';
 }
 static void call_fn(int f, void *a1, void *a2)
@@ -195,6 +197,8 @@ static void call_fn(int f, void *a1, void *a2)
     case 24: cstl_unique_ptr_alloc(a1, 0, NULL, NULL); break;      /* zero size: only resets */
     case 25: cstl_shared_ptr_alloc(a1, 0, NULL); break;
     case 26: cstl_guarded_ptr_copy(a1, a1); break;                 /* source and destination the same stray object */
+    case 27: cstl_unique_ptr_alloc(a1, SIZE_MAX - 4096, NULL, NULL); break;     /* an allocation that cannot be satisfied */
+    case 28: cstl_shared_ptr_alloc(a1, SIZE_MAX - 4096, NULL); break;
     }
 }
 static void *obj_of(char kind, int idx)
